@@ -2,7 +2,7 @@
 
 use event::Sink;
 use generated::nodes::{SourceFile, Trivia};
-use parser::{LocatedSyntaxError, Parser};
+use parser::{LocatedSyntaxError, Parser, SyntaxError};
 pub use rowan;
 
 mod ast;
@@ -37,10 +37,37 @@ pub fn parse(input: &str) -> (SourceFile, Vec<LocatedSyntaxError>) {
 	let sink = Sink::new(events, &lexemes);
 
 	let parse = sink.finish();
-	(
-		SourceFile {
-			syntax: parse.syntax(),
-		},
-		parse.errors,
-	)
+	let file = SourceFile {
+		syntax: parse.syntax(),
+	};
+	let mut errors = parse.errors;
+	duplicate_parameter_names(&file, &mut errors);
+	(file, errors)
+}
+
+/// `function(a, a) a` is a static error for the evaluator's parsers: the names declared by one
+/// parameter list are pairwise different. The event parser sees no token text, so check the tree
+fn duplicate_parameter_names(file: &SourceFile, errors: &mut Vec<LocatedSyntaxError>) {
+	use nodes::{Destruct, ParamsDesc};
+	for params in file.syntax().descendants().filter_map(ParamsDesc::cast) {
+		let mut seen = Vec::new();
+		for param in params.params() {
+			let Some(Destruct::DestructFull(full)) = param.destruct() else {
+				continue;
+			};
+			let Some(ident) = full.name().and_then(|n| n.ident_lit()) else {
+				continue;
+			};
+			if seen.iter().any(|s| s == ident.text()) {
+				errors.push(LocatedSyntaxError {
+					error: SyntaxError::Custom {
+						error: format!("duplicate parameter name '{}'", ident.text()),
+					},
+					range: ident.text_range(),
+				});
+			} else {
+				seen.push(ident.text().to_owned());
+			}
+		}
+	}
 }
